@@ -103,8 +103,10 @@ func sizeClass(n int) string {
 		return "1KiB..64KiB"
 	case n == 65536:
 		return "64KiB"
+	case n < 1<<20:
+		return "64KiB..1MiB"
 	case n < 8<<20-64:
-		return ">64KiB"
+		return "1MiB..8MiB"
 	case n == 8<<20-64:
 		return "8MiB-64(limit)"
 	}
@@ -145,6 +147,35 @@ func payload(rng *mon.Rng, n int) []byte {
 		}
 	}
 	return b
+}
+
+// magicPayload returns a payload that begins with the constructor id of one of the transport's
+// own messages without being one (those are exactly 12 bytes long: id + random_id:long), plus the
+// 12-byte forms that the receiving side of direction dir does not consume: an application may send
+// such bytes, and they must arrive like any others. Left out: what the receiver of that direction
+// answers or consumes itself (tcp.ping of 12 bytes towards the server, tcp.pong of 12 bytes and
+// tcp.authentificationNonce towards the client).
+func magicPayload(rng *mon.Rng, dir int) []byte {
+	tail := func(not12 bool) []byte {
+		n := mon.Pick(rng, []int{0, 1, 4, 7, 9, 100, rng.Range(0, 40)})
+		if not12 && n == 8 {
+			n = 9
+		}
+		return rng.Bytes(n)
+	}
+	if dir == adnl.ServerToClient {
+		if rng.Bool() {
+			return append(append([]byte{}, adnl.MagicPong...), tail(true)...)
+		}
+		return append(append([]byte{}, adnl.MagicPing...), rng.Bytes(mon.Pick(rng, []int{0, 8, 8, 20}))...)
+	}
+	switch rng.Intn(3) {
+	case 0:
+		return append(append([]byte{}, adnl.MagicPing...), tail(true)...)
+	case 1:
+		return append(append([]byte{}, adnl.MagicPong...), rng.Bytes(mon.Pick(rng, []int{0, 8, 8, 20}))...)
+	}
+	return append(append([]byte{}, adnl.MagicAuthNonce...), tail(false)...)
 }
 
 func nonceSource(rng *mon.Rng) (adnl.NonceSource, *sync.Mutex) {
@@ -327,6 +358,11 @@ func setupServer(srv *adnl.Server, ss *serverSide, ns adnl.NonceSource, script [
 					ss.recvErr = io.EOF
 				}
 				ss.mu.Unlock()
+				if err != io.EOF {
+					// a server drops a connection whose stream it cannot follow any more; left open and
+					// unread it would park the client's writers behind a full socket buffer
+					p.Close()
+				}
 				break
 			}
 			if pg, ok := adnl.IsPing(pl); ok {
@@ -424,6 +460,12 @@ func cleanCase(w *mon.Worker, idx int, o cleanOpts) {
 				break
 			}
 			budget -= s + adnl.FrameOverhead
+			if rng.Chance(1, 12) {
+				mp := magicPayload(rng, dir)
+				budget -= len(mp) + adnl.FrameOverhead
+				out = append(out, mp)
+				w.Seen("transport_magic_prefixed_payloads", fmt.Sprintf("%s:%x/len=%d", map[int]string{adnl.ClientToServer: "c2s", adnl.ServerToClient: "s2c"}[dir], mp[:4], len(mp)))
+			}
 			out = append(out, payload(rng, s))
 		}
 		return out
@@ -646,7 +688,14 @@ func concurrentCase(w *mon.Worker, idx int) {
 	pr := startProbe()
 	defer pr.Stop()
 	g, per := rng.Range(2, 8), rng.Range(20, 120)
-	wit := map[string]any{"case": idx, "section": "concurrent-senders", "goroutines": g, "packets_per_goroutine": per}
+	// every sixth case keeps 2..4 goroutines sending small packets without a pause for 6.5 s: the client's
+	// own pings (one every 3 s, built and sent by a goroutine of the client's) then fall into the middle
+	// of the application's frames on the same stream, which must stay one continuous key stream
+	hammer := idx%6 == 0
+	if hammer {
+		g = min(g, 4)
+	}
+	wit := map[string]any{"case": idx, "section": "concurrent-senders", "goroutines": g, "packets_per_goroutine": per, "without_pause_for_6.5s": hammer}
 	conn, err, pn := dial(id.Pub[:], srv.Addr())
 	if pn != nil {
 		wit["panic"] = pn.Value
@@ -664,28 +713,42 @@ func concurrentCase(w *mon.Worker, idx int) {
 	}
 	_ = collect(conn)
 	sent := make([][][]byte, g)
+	senders := make([]*mon.Rng, g)
+	tagged := func(r *mon.Rng, i, k, n int) []byte {
+		// at least 8 bytes: every payload carries (sender, sequence number), so the history is unambiguous
+		pl := payload(r, n)
+		binary.LittleEndian.PutUint32(pl, uint32(i))
+		binary.LittleEndian.PutUint32(pl[4:], uint32(k))
+		return pl
+	}
 	for i := range sent {
-		r := rng.Fork("sender", i)
-		for k := 0; k < per; k++ {
-			// at least 8 bytes: every payload carries (sender, sequence number), so the history is unambiguous
-			n := 8 + mon.Pick(r, []int{0, 1, 56, 57, 1000, 4096, 48 << 10, r.Intn(20000)})
-			pl := payload(r, n)
-			if len(pl) >= 8 { // tag with sender and sequence number
-				binary.LittleEndian.PutUint32(pl, uint32(i))
-				binary.LittleEndian.PutUint32(pl[4:], uint32(k))
-			}
-			sent[i] = append(sent[i], pl)
+		senders[i] = rng.Fork("sender", i)
+		for k := 0; k < per && !hammer; k++ {
+			sent[i] = append(sent[i], tagged(senders[i], i, k, 8+mon.Pick(senders[i], []int{0, 1, 56, 57, 1000, 4096, 48 << 10, senders[i].Intn(20000)})))
 		}
 	}
 	var wg sync.WaitGroup
 	var mu sync.Mutex
 	var firstErr error
 	var firstPanic *mon.Panic
+	t0 := time.Now()
 	for i := 0; i < g; i++ {
 		wg.Add(1)
 		go func(i int) {
 			defer wg.Done()
-			for _, pl := range sent[i] {
+			for k := 0; ; k++ {
+				if hammer {
+					if time.Since(t0) > 6500*time.Millisecond || k == 400_000 {
+						return
+					}
+					if k%8 == 7 {
+						time.Sleep(100 * time.Microsecond) // bursts of 8: the stream is busy about half of the time
+					}
+					sent[i] = append(sent[i], tagged(senders[i], i, k, 8+senders[i].Intn(33)))
+				} else if k == len(sent[i]) {
+					return
+				}
+				pl := sent[i][k]
 				var e error
 				pn := mon.Guard(func() {
 					var pk liteclient.Packet
@@ -709,7 +772,10 @@ func concurrentCase(w *mon.Worker, idx int) {
 		}(i)
 	}
 	wg.Wait()
-	total := g * per
+	total := 0
+	for i := range sent {
+		total += len(sent[i])
+	}
 	if firstPanic != nil {
 		wit["panic"], wit["stack"] = firstPanic.Value, firstPanic.Stack
 		w.Violation("panic@"+firstPanic.Site+"/Send(concurrent)", wit)
@@ -719,7 +785,10 @@ func concurrentCase(w *mon.Worker, idx int) {
 	ss.mu.Lock()
 	recv, rerr, pings := ss.recv, ss.recvErr, ss.pings
 	ss.mu.Unlock()
-	_ = pings
+	if hammer {
+		w.Count("pings_in_the_middle_of_concurrent_senders", int64(pings))
+		w.Count("concurrent_cases_sending_without_pause_for_6.5s", 1)
+	}
 	if pr.Max() > 500*time.Millisecond {
 		w.Inconclusive("concurrent-senders case on a stalled machine")
 		return
@@ -747,13 +816,13 @@ func concurrentCase(w *mon.Worker, idx int) {
 		matched := false
 		if len(pl) >= 8 {
 			i, k := int(binary.LittleEndian.Uint32(pl)), int(binary.LittleEndian.Uint32(pl[4:]))
-			if i < g && k == next[i] && bytes.Equal(pl, sent[i][k]) {
+			if i < g && k == next[i] && k < len(sent[i]) && bytes.Equal(pl, sent[i][k]) {
 				next[i]++
 				matched = true
 			}
 		} else {
 			for i := 0; i < g && !matched; i++ {
-				if next[i] < per && bytes.Equal(pl, sent[i][next[i]]) {
+				if next[i] < len(sent[i]) && bytes.Equal(pl, sent[i][next[i]]) {
 					next[i]++
 					matched = true
 				}
@@ -764,7 +833,12 @@ func concurrentCase(w *mon.Worker, idx int) {
 			w.Violation("payload-mismatch@client->server/concurrent-senders", wit)
 			return
 		}
-		w.Eval(fmt.Sprintf("c2s-conc/%d/%x", len(pl), head(pl)))
+		if n < 3000 {
+			w.Eval(fmt.Sprintf("c2s-conc/%d/%x", len(pl), head(pl)))
+		}
+	}
+	if len(recv) > 3000 {
+		w.EvalN(int64(len(recv)-3000), fmt.Sprintf("c2s-conc-bulk/%d/%d", idx, len(recv)))
 	}
 }
 
@@ -821,6 +895,18 @@ func faultyServerFrames(w *mon.Worker, idx int, rng *mon.Rng, id *adnl.Identity)
 		sizes[i] = pickSize(rng, rng.Chance(1, 6))
 		script[i] = payload(rng, sizes[i])
 	}
+	// one run in twelve: the fault hits a frame far above 64 KiB (a receiver may treat large frames
+	// differently, e.g. stream them), up to the 8 MiB limit
+	bigIdx := -1
+	if rng.Chance(1, 12) {
+		if k > 6 {
+			k = 6
+			sizes, script = sizes[:k], script[:k]
+		}
+		bigIdx = rng.Intn(k)
+		sizes[bigIdx] = mon.Pick(rng, []int{rng.Range(100<<10, 1<<20), rng.Range(1<<20+1, 3<<20), rng.Range(1<<20+1, 3<<20), 8<<20 - 64})
+		script[bigIdx] = payload(rng, sizes[bigIdx])
+	}
 	// frame 0 is the handshake confirmation (empty payload)
 	spans := []adnl.Span{{Start: 0, End: adnl.FrameOverhead}}
 	for _, s := range sizes {
@@ -837,6 +923,9 @@ func faultyServerFrames(w *mon.Worker, idx int, rng *mon.Rng, id *adnl.Identity)
 	target := rng.Intn(k + 1)
 	if rng.Chance(1, 8) {
 		target = 0
+	}
+	if bigIdx >= 0 {
+		target = bigIdx + 1
 	}
 	kind := pickKind(rng)
 	region := mon.Pick(rng, regionNames)
@@ -861,6 +950,9 @@ func faultyServerFrames(w *mon.Worker, idx int, rng *mon.Rng, id *adnl.Identity)
 	modes := [2]adnl.ChunkMode{adnl.ChunkPass, adnl.ChunkMode(rng.Intn(4))}
 	if modes[1] == adnl.ChunkOneByte && total > 60<<10 {
 		modes[1] = adnl.ChunkRandom
+	}
+	if bigIdx >= 0 {
+		modes[1] = mon.Pick(rng, []adnl.ChunkMode{adnl.ChunkPass, adnl.ChunkCoalesce})
 	}
 	wit := map[string]any{"case": idx, "section": "faulty/server->client", "server_seed": mon.Hex(id.Seed[:]), "fault": f.Kind.String(), "offset": f.Offset,
 		"bit": f.Bit, "delta": f.Delta, "len": f.Len, "target_frame": target, "region": region, "frames": k + 1, "payload_sizes": sizes, "chunking": modes[1].String()}
@@ -972,10 +1064,20 @@ func faultyServerFrames(w *mon.Worker, idx int, rng *mon.Rng, id *adnl.Identity)
 		return
 	}
 	col := collect(dr.conn)
-	// wait for everything the proxy will ever forward
-	select {
-	case <-ss.sent:
-	case <-time.After(30 * time.Second):
+	// wait for everything the proxy will ever forward: the server has written its script, or the fault
+	// went through and nothing has moved for a second (a client that has given up on the stream stops
+	// reading, and the rest of a large frame then waits in the server's socket buffer for ever)
+	for i, last, still := 0, int64(-1), 0; i < 600; i++ {
+		select {
+		case <-ss.sent:
+			i = 600
+		case <-time.After(50 * time.Millisecond):
+		}
+		if f := px.Forwarded[adnl.ServerToClient].Load(); f != last {
+			last, still = f, 0
+		} else if still++; still >= 20 && px.Applied.Load() {
+			break
+		}
 	}
 	if !px.Applied.Load() {
 		// give the proxy time to carry the faulty byte
@@ -1003,12 +1105,27 @@ func faultyServerFrames(w *mon.Worker, idx int, rng *mon.Rng, id *adnl.Identity)
 	complete := col.waitCount(want, 15*time.Second)
 	time.Sleep(40 * time.Millisecond)
 	release()
-	<-ss.sent
+	select {
+	case <-ss.sent:
+	case <-time.After(2 * time.Second):
+		// the server is still writing into a connection nobody reads any more: end it from the server's side
+		ss.mu.Lock()
+		peer := ss.peer
+		ss.mu.Unlock()
+		if peer != nil {
+			peer.Close()
+		}
+		<-ss.sent
+	}
 	time.Sleep(60 * time.Millisecond) // EOF reaches the client; a wrongly accepted tail would surface now
 	got := col.snapshot()
 	w.Eval(fmt.Sprintf("s2c-fault/%s/%d/%d", class, t, f.Offset-spans[target].Start))
 	w.Seen("fault_classes", "s2c:"+class)
 	w.Seen("fault_chunking", modes[1].String())
+	if bigIdx >= 0 {
+		w.Seen("faults_in_large_frames", sizeClass(sizes[bigIdx])+"/"+class)
+		w.Count("faulty_runs_s2c_large_frame", 1)
+	}
 	for i := range got {
 		if i >= want {
 			wit["delivered"], wit["allowed"] = len(got), want
@@ -1150,7 +1267,13 @@ func faultyClientFrames(w *mon.Worker, idx int, rng *mon.Rng, id *adnl.Identity)
 		return
 	}
 	defer px.Close()
+	pr := startProbe()
+	defer pr.Stop()
 	conn, err, pn := dial(id.Pub[:], px.Addr())
+	if pn == nil && err != nil && pr.Max() > 500*time.Millisecond {
+		w.Inconclusive("handshake failed on a stalled machine")
+		return
+	}
 	if pn != nil || err != nil {
 		w.Violation("handshake-failed@clean-stream", map[string]any{"case": idx, "error": fmt.Sprint(err, pn)})
 		return
@@ -1346,6 +1469,115 @@ func parseCase(w *mon.Worker, idx int) {
 	}
 }
 
+// parseBigCase: ParsePacket over a stream of a small frame, one above 64 KiB and one above 1 MiB,
+// with sampled single-bit flips in every region of every frame (the exhaustive sweep of parseCase
+// stays with small frames): a receiver that treats large frames differently must reject them all
+// the same, and must keep accepting what comes before.
+func parseBigCase(w *mon.Worker, idx int) {
+	rng := w.Rng("parse-big", idx)
+	key, iv := rng.Bytes(32), rng.Bytes(16)
+	sizes := []int{rng.Range(0, 40), rng.Range(64<<10+1, 200<<10), rng.Range(1<<20+1, 1<<20+300_000)}
+	if idx%2 == 1 {
+		sizes[1], sizes[2] = sizes[2], sizes[1]
+	}
+	var payloads [][]byte
+	var spans []adnl.Span
+	var plain []byte
+	for _, s := range sizes {
+		pl := rng.Bytes(s)
+		var n [32]byte
+		copy(n[:], rng.Bytes(32))
+		fr := adnl.EncodeFrame(n, pl)
+		spans = append(spans, adnl.Span{Start: int64(len(plain)), End: int64(len(plain) + len(fr))})
+		plain = append(plain, fr...)
+		payloads = append(payloads, pl)
+	}
+	blk, _ := aes.NewCipher(key)
+	stream := make([]byte, len(plain))
+	cipher.NewCTR(blk, iv).XORKeyStream(stream, plain)
+	wit := func() map[string]any {
+		return map[string]any{"case": idx, "section": "ParsePacket/large-frames", "seed": w.Seed, "key": mon.Hex(key), "iv": mon.Hex(iv), "payload_sizes": sizes,
+			"note": "stream = AES-CTR(key, iv) over the three reference frames drawn from Rng(parse-big, case)"}
+	}
+	parseAll := func(b []byte) (got [][]byte, err error, pn *mon.Panic) {
+		dec := cipher.NewCTR(blk, iv)
+		r := bytes.NewReader(b)
+		for i := 0; i < 3; i++ {
+			var pk liteclient.Packet
+			pn = mon.Guard(func() { pk, err = liteclient.ParsePacket(r, dec) })
+			if pn != nil || err != nil {
+				return
+			}
+			got = append(got, pk.Payload)
+		}
+		return
+	}
+	got, err, pn := parseAll(stream)
+	w.Eval(fmt.Sprintf("parse-big-clean/%d", idx))
+	if pn != nil || err != nil || len(got) != 3 || !bytes.Equal(got[0], payloads[0]) || !bytes.Equal(got[1], payloads[1]) || !bytes.Equal(got[2], payloads[2]) {
+		m := wit()
+		m["error"], m["panic"], m["parsed"] = fmt.Sprint(err), fmt.Sprint(pn != nil), len(got)
+		w.Violation("clean-stream-rejected-or-mangled@ParsePacket/large-frames", m)
+		return
+	}
+	mut := append([]byte(nil), stream...)
+	for t, sp := range spans {
+		for _, region := range regionNames {
+			lo, hi := sp.Start, sp.Start+4
+			switch region {
+			case "nonce":
+				lo, hi = sp.Start+4, sp.Start+36
+			case "payload":
+				lo, hi = sp.Start+36, sp.End-32
+			case "checksum":
+				lo, hi = sp.End-32, sp.End
+			}
+			if hi <= lo {
+				continue
+			}
+			positions := []int64{lo, hi - 1}
+			for i := 0; i < 10; i++ {
+				positions = append(positions, lo+int64(rng.Intn(int(hi-lo))))
+			}
+			for _, pos := range positions {
+				bit := uint(rng.Intn(8))
+				mut[pos] ^= 1 << bit
+				got, err, pn := parseAll(mut)
+				mut[pos] ^= 1 << bit
+				w.EvalN(1, fmt.Sprintf("parse-big-bitflip/%d/%d/%d", idx, pos, bit))
+				w.Seen("parse_fault_classes_large_frames", sizeClass(sizes[t])+"/bitflip/"+region)
+				m := wit()
+				m["position"], m["bit"], m["touched_frame"], m["region"] = pos, bit, t, region
+				switch {
+				case pn != nil:
+					m["panic"] = pn.Value
+					w.Violation("panic@"+pn.Site+"/ParsePacket(bitflip)/"+region, m)
+					return
+				case len(got) > t:
+					m["parsed_without_error"], m["delivered_equals_sent"] = len(got), bytes.Equal(got[t], payloads[t])
+					w.Violation("corrupted-frame-accepted@ParsePacket/bitflip/"+region+"/"+sizeClass(sizes[t]), m)
+					return
+				case err == nil:
+					w.Violation("no-error@ParsePacket/bitflip/"+region, m)
+					return
+				case len(got) < t:
+					m["parsed"], m["error"] = len(got), err.Error()
+					w.Violation("intact-frame-rejected@ParsePacket/bitflip/"+region, m)
+					return
+				}
+				for i := range got {
+					if !bytes.Equal(got[i], payloads[i]) {
+						m["index"] = i
+						w.Violation("payload-mismatch@ParsePacket/before-fault", m)
+						return
+					}
+				}
+			}
+		}
+	}
+	w.Count("parse_bitflips_sampled_in_large_frames", 1)
+}
+
 // ---------------------------------------------------------------- workers
 
 func runSpan(w *mon.Worker, f func(i int)) {
@@ -1375,6 +1607,7 @@ func workers() map[string]func(*mon.Worker) {
 		"faulty":     func(w *mon.Worker) { runSpan(w, func(i int) { faultyCase(w, i) }) },
 		"concurrent": func(w *mon.Worker) { runSpan(w, func(i int) { concurrentCase(w, i) }) },
 		"parse":      func(w *mon.Worker) { runSpan(w, func(i int) { parseCase(w, i) }) },
+		"parsebig":   func(w *mon.Worker) { runSpan(w, func(i int) { parseBigCase(w, i) }) },
 	}
 }
 
@@ -1458,7 +1691,9 @@ func main() {
 	R.Level = "fault_enumeration"
 	R.Rule = "clean runs: tongo's NewConnection/Send/Responses against the stdlib reference peer through a re-segmenting proxy; the reference must accept the handshake and every client frame, and the payload sequences must be equal in both directions (one evaluation per compared packet, distinct = distinct (direction, payload)); " +
 		"faulty runs: exactly one fault (bit flip, byte substitution, truncation, duplication, deletion) at a chosen offset of the server->client stream (handshake confirmation, or length/nonce/payload/checksum of the k-th frame) or of the client's handshake; the sequence delivered on Responses() must be exactly the frames before the first touched one, each equal to what was sent (one evaluation per faulty run, distinct = distinct (kind, region, frame, offset)); " +
-		"ParsePacket: streams of three reference-encrypted frames with every single-bit flip, one substitution per byte, every truncation, and awkward readers (one evaluation per mutated stream)"
+		"ParsePacket: streams of three reference-encrypted frames with every single-bit flip, one substitution per byte, every truncation, and awkward readers (one evaluation per mutated stream); " +
+		"large frames: one faulty run in twelve aims its fault at a frame of 100 KiB..8 MiB-64, and ParsePacket streams holding frames above 64 KiB and above 1 MiB get sampled bit flips in every region; " +
+		"payloads that begin with the constructor id of tcp.ping / tcp.pong / tcp.authentificationNonce without being such a message travel like any other payload; every sixth concurrent-senders case keeps sending without a pause for 6.5 s so that the client's own pings fall into the middle of the senders' frames"
 	R.Assume("reference peer harness/ref/adnl implements ADNL-over-TCP as described at the top of ref/adnl/adnl.go; pinned only by its self-check (RFC 7748 base point, DH symmetry, client half vs server half) and by interoperating with tongo")
 	R.Assume("an accepted corrupted frame by hash collision (2^-256) is ignored; over-limit frames (> 8 MiB) may be refused or delivered intact")
 	if err := adnl.SelfCheck(); err != nil {
@@ -1488,6 +1723,7 @@ func main() {
 	split("concurrent", R.N(6, 80), R.N(2, 8))
 	split("faulty", R.N(200, 10000), R.N(20, 100))
 	split("parse", R.N(3, 24), 1)
+	split("parsebig", R.N(2, 8), 1)
 	R.RunJobs(jobs, mon.ChildOpts{Parallel: 14, Timeout: 10 * time.Minute,
 		Env: []string{"GORACE=halt_on_error=0 exitcode=0 log_path=" + filepath.Join(raceDir, "race")}},
 		func(c mon.Crash) {
